@@ -129,3 +129,55 @@ func sweepTransient(yield func(transientCase) bool) {
 		}
 	}
 }
+
+// A rejected bulk value right before a valid one: a value of hundreds of kilobytes with one non-decimal nibble near its start
+// is refused - and the very next call, on the same goroutine, decodes a valid value of the same size. Whatever the first call
+// left running or lying around, the second returns every digit.
+type afterRejectCase struct {
+	Bytes  int `json:"bytes"`
+	Rounds int `json:"rounds"`
+	BadAt  int `json:"bad_byte"`
+}
+
+func checkAfterReject(c afterRejectCase) *rp.Fail {
+	ev.Case("decode/bulk-value-right-after-a-rejected-one", true, fmt.Sprint(c))
+	good := make([]byte, c.Bytes)
+	for i := range good {
+		good[i] = byte((i%10)<<4 | (i/7+3)%10)
+	}
+	bad := append([]byte(nil), good...)
+	bad[c.BadAt%c.Bytes] = 0xfa
+	var want strings.Builder
+	want.Grow(2 * c.Bytes)
+	for _, b := range good {
+		want.WriteByte('0' + b>>4)
+		want.WriteByte('0' + b&15)
+	}
+	w := want.String()
+	for r := 0; r < c.Rounds; r++ {
+		if _, err := bcd.Decode(bad); err == nil {
+			return rp.Failf("bcd.Decode/accepts-non-decimal-nibble/bulk", "round %d: a %d-byte value with a non-decimal nibble in byte %d was accepted", r, c.Bytes, c.BadAt%c.Bytes)
+		}
+		got, err := bcd.Decode(good)
+		if err != nil {
+			return rp.Failf("bcd.Decode/error/after-a-rejected-bulk-value", "round %d: a valid %d-byte value decoded right after a rejected one of the same size failed: %v", r, c.Bytes, err)
+		}
+		if got != w {
+			k := 0
+			for k < len(got) && k < len(w) && got[k] == w[k] {
+				k++
+			}
+			return rp.Failf("bcd.Decode/wrong-digits/after-a-rejected-bulk-value", "round %d: a valid %d-byte value decoded right after a rejected one of the same size: %d digits, digit %d is %q, the byte there says %q", r, c.Bytes, len(got), k, got[k:min(k+1, len(got))], w[k:k+1])
+		}
+	}
+	return nil
+}
+
+func sweepAfterReject(yield func(afterRejectCase) bool) {
+	cases := []afterRejectCase{{Bytes: 262144, Rounds: 150, BadAt: 5}, {Bytes: 65536, Rounds: 300, BadAt: 0}, {Bytes: 1 << 20, Rounds: 30, BadAt: 4097}, {Bytes: 70001, Rounds: 200, BadAt: 69999}}
+	for i, c := range cases {
+		if ev.Mine(i) && !yield(c) {
+			return
+		}
+	}
+}
